@@ -65,7 +65,7 @@ fn interesting(tree: &Value) -> (bool, bool, bool, bool) {
 pub fn run(ctx: &Ctx, replay: Option<&J>) -> CheckResult {
     let rule = "all supported types plus Empty/Corrupt/MsgNotSupported: (1) proptest recipes (as C01/C09 but never injecting NaN; +-inf allowed): strings with high Latin-1 \
         and multi-byte characters around the capacities, lists filled to capacity, toggled options; (2) messages decoded from the decoder-side generators; (3) 1007/1008/1033/1029 built through the typed API (From<&str>) from text of every class incl. escape-, entity- and format-like tokens. oracle: \
-        from_value(to_value(m)) == m through the harness' own self-describing value model (exact for f32/f64/char/u64), and for finite messages additionally through \
+        from_value(to_value(m)) == m (and, for base messages with a list reversed / rotated / swapped / with a repeated element, to_value(from_value(t)) == t) through the harness' own self-describing value model (exact for f32/f64/char/u64), and for finite messages additionally through \
         serde_json::Value (tree, no text). non-trivial = message with a non-ASCII string, a None, a non-zero float or a list of >=15 elements; distinct = hash of the value tree"
         .to_string();
     let assumptions = vec![
@@ -81,6 +81,16 @@ pub fn run(ctx: &Ctx, replay: Option<&J>) -> CheckResult {
         } else {
             c.get("value").and_then(Value::from_json).and_then(|t| value_to_message(&t).ok())
         };
+        if c["kind"] == "message-value-exact" {
+            if let (Some(t), Some(m)) = (c.get("value").and_then(Value::from_json), m.as_ref()) {
+                if let Ok(t2) = to_value(m) {
+                    if t2 != t {
+                        vs.push(Violation { property: "C20".into(), signature: "c20:deserialize-changes-value".into(), message: format!("{}: deserialising a value and serialising the result gives a different value", registry::variant_name(m)), case: c.clone() });
+                        return CheckResult { evidence: ev, rule, assumptions, violations: vs };
+                    }
+                }
+            }
+        }
         if let Some(m) = m {
             if let Err((sig, msg)) = oracle(&m) {
                 vs.push(Violation { property: "C20".into(), signature: sig, message: msg, case: c.clone() });
@@ -192,6 +202,80 @@ pub fn run(ctx: &Ctx, replay: Option<&J>) -> CheckResult {
         for x in svs {
             if !vs.iter().any(|y| y.signature == x.signature) {
                 vs.push(x);
+            }
+        }
+    }
+    // list order and duplicates are part of the value: every list of every base message reversed, rotated by one, with its
+    // first two elements swapped, and with its first element duplicated at the end (a deserializer that sorts, dedups or
+    // validates rows changes the message)
+    {
+        let parts: Vec<(Evidence, Vec<Violation>)> = corp
+            .types
+            .par_iter()
+            .map(|tc| {
+                let mut ev = Evidence::new();
+                ev.sample_cap = 0;
+                let mut vs: Vec<Violation> = Vec::new();
+                for base in &tc.bases {
+                    let mut all = Vec::new();
+                    base.walk(&mut Vec::new(), &mut all);
+                    let seqs: Vec<crate::value::Path> = all.iter().filter(|(_, n)| matches!(n, Value::Seq(items) if items.len() >= 2)).map(|(p, _)| p.clone()).collect();
+                    for path in seqs {
+                        for variant in 0..4 {
+                            let mut t = base.clone();
+                            if let Some(Value::Seq(items)) = t.get_mut(&path) {
+                                match variant {
+                                    0 => items.reverse(),
+                                    1 => items.rotate_left(1),
+                                    2 => items.swap(0, 1),
+                                    _ => {
+                                        let e = items[0].clone();
+                                        if let Some(last) = items.last_mut() {
+                                            *last = e;
+                                        }
+                                    }
+                                }
+                            }
+                            if &t == base {
+                                continue;
+                            }
+                            let m = match crate::msggen::value_to_message(&t) {
+                                Ok(m) => m,
+                                Err(_) => continue,
+                            };
+                            ev.evaluations += 1;
+                            // the message was constructed by deserialising t (elements unchanged, only their order): serialising
+                            // it must give t back, otherwise the deserialiser itself reordered / dropped rows
+                            let same_tree = match to_value(&m) {
+                                Ok(t2) => t2 == t,
+                                Err(_) => true,
+                            };
+                            let r = if same_tree { oracle(&m) } else { Err(("c20:deserialize-changes-value".to_string(), format!("{}: deserialising a value and serialising the result gives a different value", registry::variant_name(&m)))) };
+                            match r {
+                                Ok(_) => {
+                                    ev.nontrivial_hash(hash_str(&format!("{}{:?}{}", tc.number, path, variant) ) ^ hash_str(&format!("{:?}", t).chars().take(400).collect::<String>()));
+                                    ev.class("list-reordered-or-duplicated");
+                                }
+                                Err((sig, msg)) => {
+                                    if ctx.is_known(&sig) {
+                                        ev.excluded_known += 1;
+                                    } else if vs.is_empty() {
+                                        vs.push(Violation { property: "C20".into(), signature: sig, message: format!("list {} ({}): {}", crate::value::schema_key(&path), ["reversed", "rotated", "first two swapped", "first element repeated at the end"][variant], msg), case: json!({"kind":"message-value-exact","number":tc.number,"value":t.to_json()}) });
+                                    }
+                                }
+                            }
+                        }
+                    }
+                }
+                (ev, vs)
+            })
+            .collect();
+        for (e, v) in parts {
+            ev.merge(e);
+            for x in v {
+                if !vs.iter().any(|y| y.signature == x.signature) {
+                    vs.push(x);
+                }
             }
         }
     }
